@@ -353,3 +353,23 @@ func lenientDocs() [][]byte {
 	}
 	return out
 }
+
+// shortStrings calls emit with every string of 1..n bytes over the alphabet (the buffer is reused).
+func shortStrings(alpha []byte, n int, emit func(d []byte)) {
+	buf := make([]byte, 0, n)
+	var rec func()
+	rec = func() {
+		if len(buf) > 0 {
+			emit(buf)
+		}
+		if len(buf) == n {
+			return
+		}
+		for _, b := range alpha {
+			buf = append(buf, b)
+			rec()
+			buf = buf[:len(buf)-1]
+		}
+	}
+	rec()
+}
